@@ -286,9 +286,7 @@ func queuedBody(c qcfg) func() {
 		if v := tr.Violations(); len(v) > 0 {
 			w.failf("ownership %s|%s (send queue / drainer / CloseAndClean; belongs to C11 as well)", v[0].Sig, v[0].Desc)
 		}
-		if e := logErrors(); e != "" {
-			w.failf("logged-error|nbio logged an error (a recovered panic?): %s", e)
-		}
+		w.logFailure()
 
 		cnt := map[string]int{"messages_delivered": len(l.msgs), "late_write_calls_on_closed_conn": fc.lateWrites}
 		if res.v != nil {
